@@ -16,7 +16,8 @@
  *   getfrag <bs> <filesz> <nblk> <fragidx> <fragoff> <fstart> <fword>
  *                                               one-entry fragment table (fstart,fword); -> ok <size> | err <NAME>
  *   stream <bs> <filesz> <start> <fragidx> <fragoff> <fstart> <fword> <w1,w2,..|->
- *                                               -> sizes of the chunks delivered, then eof | err <NAME>
+ *                                               -> sizes of the chunks delivered, then eof | err <NAME>, then the
+ *                                                  results of two more calls on the same stream
  *   getblk <bs> <filesz> <start> <index> <w1,w2,..|->      -> ok <size> | err <NAME>
  *   dread <bs> <filesz> <start> <fragidx> <fragoff> <fstart> <fword> <offset> <size> <w1,..|->
  *                                               sqfs_data_reader_read -> ok <n> | err <NAME>
@@ -28,11 +29,46 @@
  *                                               -> ok <size> | err <NAME>
  *   resolve <hex name> <hex path>               one-entry root directory; sqfs_dir_reader_resolve_path(path)
  *                                               -> ok | err <NAME>
+ *   super <hex>                                 the bytes as the file; sqfs_super_read -> ok | err <NAME>
+ *   sb <flags> <id_count> <frag_count> <bytes_used> <id_table> <xattr_id_table> <inode_table> <dir_table>
+ *      <frag_table> <export_table> <root_ref> <block_size>
+ *                                               superblock used by the following operations (on the image of `img`)
+ *   idtable                                     sqfs_id_table_read -> ok | err <NAME>
+ *   idx <i>                                     sqfs_id_table_index_to_id -> ok <id> | err <NAME>
+ *   fragtable                                   sqfs_frag_table_read -> ok | err <NAME>
+ *   fragidx <i>                                 sqfs_frag_table_lookup -> ok <start> <size> | err <NAME>
+ *   xnew                                        fresh xattr reader
+ *   xload                                       sqfs_xattr_reader_load -> ok | err <NAME>
+ *   xdesc <idx>                                 sqfs_xattr_reader_get_desc -> ok <xattr> <count> <size> | err <NAME>
+ *   xseek <xattr>                               sqfs_xattr_reader_seek_kv -> ok | err <NAME>
+ *   xkey                                        sqfs_xattr_reader_read_key -> ok <type> <size> | err <NAME>
+ *   xval <key type>                             sqfs_xattr_reader_read_value -> ok <size> | err <NAME>
+ *   xall <idx>                                  sqfs_xattr_reader_read_all -> ok <entries> <sum of value sizes> | err
+ *   dopen <rdflags> <openflags> <type> <start_block> <offset> <size> <inum> <parent> <inum:ref,..|->
+ *                                               dir reader with the given inode number cache; hand-built directory
+ *                                               inode; sqfs_dir_reader_open_dir, then the two dot entries
+ *                                               -> ok <block> <offset> <size> <state> <dir_ref> <parent_ref>
+ *                                                  [. <ref> .. <ref> <state>] | err <NAME>
+ *   dirlist <start_block> <offset> <size>       open_dir + sqfs_dir_reader_read until the end
+ *                                               -> n=<entries> names=<sum size+1> refs=<sum refs mod 2^32> eof|err <NAME>
+ *   cpack <comp id> <block size> <hex data>     the real compressor of the tree (compress mode): -> ok <hex> | raw | err <NAME>
+ *   cunpack <comp id> <block size> <outsize> <hex input>
+ *                                               the real decompressor: do_block into an exact `outsize` byte heap
+ *                                               buffer -> ret <n> | err <NAME> | nocomp (id not compiled in)
+ *   dentry <used> <uid_idx> <gid_idx> <len> <hex name>
+ *                                               sqfs_dir_entry_from_inode on an id table with <used> ids and a name
+ *                                               buffer of exactly the bytes + one NUL -> ok <strlen> | err <NAME>
  */
 #include "config.h"
 #include "lib/sqfs/src/meta_reader.c"
 #undef SWAB16
 #include "lib/sqfs/src/data_reader.c"
+#include "lib/sqfs/src/dir_reader.c"
+#include "sqfs/xattr_reader.h"
+#include "sqfs/xattr.h"
+#include "sqfs/frag_table.h"
+#include "sqfs/dir_entry.h"
+#include "sqfs/compressor.h"
 #include "sqfs/dir_reader.h"
 #include "sqfs/dir.h"
 #include "sqfs/id_table.h"
@@ -120,6 +156,9 @@ static const char *ename(int e)
 	case SQFS_ERROR_NOT_FILE: return "NOT_FILE";
 	case SQFS_ERROR_ARG_INVALID: return "ARG_INVALID";
 	case SQFS_ERROR_SEQUENCE: return "SEQUENCE";
+	case SFQS_ERROR_SUPER_MAGIC: return "SUPER_MAGIC";
+	case SFQS_ERROR_SUPER_VERSION: return "SUPER_VERSION";
+	case SQFS_ERROR_SUPER_BLOCK_SIZE: return "SUPER_BLOCK_SIZE";
 	default: return "OTHER";
 	}
 }
@@ -128,6 +167,18 @@ static unsigned char *img;
 static size_t img_len;
 static sqfs_meta_reader_t *mr;
 static sqfs_compressor_t *toy;
+
+static sqfs_super_t sb;
+static sqfs_id_table_t *idtbl;
+static sqfs_frag_table_t *fragtbl;
+static sqfs_xattr_reader_t *xr;
+static int xpositioned;     /* a sqfs_xattr_reader_seek_kv succeeded since the reader was made/loaded: the API
+			       contract of read_key/read_value (without a table they have no reader to read from) */
+
+static sqfs_file_t *imgfile(void)
+{
+	return memfile_new(img ? img : (unsigned char *)"", img_len);
+}
 
 static sqfs_u32 *parse_words(const char *tok, size_t *count)
 {
@@ -177,7 +228,7 @@ static sqfs_data_reader_t *mk_data_reader(sqfs_file_t *file, sqfs_u32 bs, sqfs_u
 
 static unsigned long long U(const char *s) { return s ? strtoull(s, NULL, 10) : 0; }
 
-#define MAXTOK 16
+#define MAXTOK 20
 int main(void)
 {
 	static char line[1 << 22];
@@ -233,11 +284,16 @@ int main(void)
 			int r = sqfs_data_reader_create_stream(dr, ino, "f", &in), guard = 0;
 			if (r) printf("err %s\n", ename(r));
 			else {
+				int ended = 0;        /* calls made after the first eof/error: the stream is used on twice more */
 				for (;;) {
 					const sqfs_u8 *ptr; size_t sz;
 					r = in->get_buffered_data(in, &ptr, &sz, bs);
-					if (r > 0) { printf("eof\n"); break; }
-					if (r < 0) { printf("err %s\n", ename(r)); break; }
+					if (r != 0) {
+						if (r > 0) printf("eof"); else printf("err %s", ename(r));
+						if (++ended > 2) { printf("\n"); break; }
+						printf(" ");
+						continue;
+					}
 					printf("%zu ", sz);
 					in->advance_buffer(in, sz);
 					if (++guard > 4096) { printf("toolong\n"); break; }
@@ -341,6 +397,172 @@ int main(void)
 			r = sqfs_dir_reader_resolve_path(rd, path, NULL, &ref);
 			if (r) printf("err %s\n", ename(r)); else puts("ok");
 			free(path); sqfs_drop(rd); sqfs_drop(f); free(nm); free(pa);
+		} else if (!strcmp(t[0], "super") && nt == 2) {
+			unsigned char *b; long n = hex_decode_tok(t[1], &b, 0);
+			sqfs_super_t sup; sqfs_file_t *f; int r;
+			if (n < 0) { puts("bad-op"); continue; }
+			f = memfile_new(b, n);
+			r = sqfs_super_read(&sup, f);
+			if (r) printf("err %s\n", ename(r)); else puts("ok");
+			sqfs_drop(f); free(b);
+		} else if (!strcmp(t[0], "sb") && nt == 13) {
+			memset(&sb, 0, sizeof(sb));
+			sb.flags = U(t[1]); sb.id_count = U(t[2]); sb.fragment_entry_count = U(t[3]); sb.bytes_used = U(t[4]);
+			sb.id_table_start = U(t[5]); sb.xattr_id_table_start = U(t[6]); sb.inode_table_start = U(t[7]);
+			sb.directory_table_start = U(t[8]); sb.fragment_table_start = U(t[9]); sb.export_table_start = U(t[10]);
+			sb.root_inode_ref = U(t[11]); sb.block_size = U(t[12]);
+			puts("ok");
+		} else if (!strcmp(t[0], "idtable") && nt == 1) {
+			sqfs_file_t *f = imgfile(); int r;
+			sqfs_drop(idtbl);
+			idtbl = sqfs_id_table_create(0);
+			r = sqfs_id_table_read(idtbl, f, &sb, toy);
+			if (r) printf("err %s\n", ename(r)); else puts("ok");
+			sqfs_drop(f);
+		} else if (!strcmp(t[0], "idx") && nt == 2 && idtbl) {
+			sqfs_u32 v = 0; int r = sqfs_id_table_index_to_id(idtbl, U(t[1]), &v);
+			if (r) printf("err %s\n", ename(r)); else printf("ok %u\n", (unsigned)v);
+		} else if (!strcmp(t[0], "fragtable") && nt == 1) {
+			sqfs_file_t *f = imgfile(); int r;
+			sqfs_drop(fragtbl);
+			fragtbl = sqfs_frag_table_create(0);
+			r = sqfs_frag_table_read(fragtbl, f, &sb, toy);
+			if (r) printf("err %s\n", ename(r)); else puts("ok");
+			sqfs_drop(f);
+		} else if (!strcmp(t[0], "fragidx") && nt == 2 && fragtbl) {
+			sqfs_fragment_t fr; int r = sqfs_frag_table_lookup(fragtbl, U(t[1]), &fr);
+			if (r) printf("err %s\n", ename(r)); else printf("ok %" PRIu64 " %u\n", (sqfs_u64)fr.start_offset, (unsigned)fr.size);
+		} else if (!strcmp(t[0], "xnew") && nt == 1) {
+			sqfs_drop(xr);
+			xr = sqfs_xattr_reader_create(0);
+			xpositioned = 0;
+			puts(xr ? "ok" : "err ALLOC");
+		} else if (!strcmp(t[0], "xload") && nt == 1 && xr) {
+			sqfs_file_t *f = imgfile();
+			int r = sqfs_xattr_reader_load(xr, &sb, f, toy);
+			xpositioned = 0;
+			if (r) printf("err %s\n", ename(r)); else puts("ok");
+			sqfs_drop(f);
+		} else if (!strcmp(t[0], "xdesc") && nt == 2 && xr) {
+			sqfs_xattr_id_t d; int r = sqfs_xattr_reader_get_desc(xr, U(t[1]), &d);
+			if (r) printf("err %s\n", ename(r));
+			else printf("ok %" PRIu64 " %u %u\n", (sqfs_u64)d.xattr, (unsigned)d.count, (unsigned)d.size);
+		} else if (!strcmp(t[0], "xseek") && nt == 2 && xr) {
+			sqfs_xattr_id_t d; int r;
+			memset(&d, 0, sizeof(d)); d.xattr = U(t[1]);
+			r = sqfs_xattr_reader_seek_kv(xr, &d);
+			xpositioned = (r == 0);
+			if (r) printf("err %s\n", ename(r)); else puts("ok");
+		} else if (!strcmp(t[0], "xkey") && nt == 1 && xr && xpositioned) {
+			sqfs_xattr_entry_t *k = NULL; int r = sqfs_xattr_reader_read_key(xr, &k);
+			if (r) printf("err %s\n", ename(r)); else printf("ok %u %u\n", (unsigned)k->type, (unsigned)k->size);
+			sqfs_free(k);
+		} else if (!strcmp(t[0], "xval") && nt == 2 && xr && xpositioned) {
+			sqfs_xattr_entry_t k; sqfs_xattr_value_t *v = NULL; int r;
+			memset(&k, 0, sizeof(k)); k.type = U(t[1]);
+			r = sqfs_xattr_reader_read_value(xr, &k, &v);
+			if (r) printf("err %s\n", ename(r)); else printf("ok %u\n", (unsigned)v->size);
+			sqfs_free(v);
+		} else if (!strcmp(t[0], "xall") && nt == 2 && xr) {
+			sqfs_xattr_t *l = NULL, *it; unsigned long long n = 0, sum = 0;
+			int r = sqfs_xattr_reader_read_all(xr, U(t[1]), &l);
+			for (it = l; it != NULL; it = it->next) { ++n; sum += it->value_len; }
+			if (r) printf("err %s\n", ename(r)); else printf("ok %llu %llu\n", n, sum);
+			sqfs_xattr_list_free(l);
+		} else if (!strcmp(t[0], "dopen") && nt == 10) {
+			sqfs_file_t *f = imgfile();
+			sqfs_u32 rdflags = U(t[1]);
+			sqfs_dir_reader_t *rd = rdflags <= 1 ? sqfs_dir_reader_create(&sb, toy, f, rdflags) : NULL;
+			sqfs_inode_generic_t *ino = calloc(1, sizeof(*ino));
+			sqfs_dir_reader_state_t st; const char *c = t[9]; int r;
+			if (rd == NULL) { puts("bad-op"); sqfs_drop(f); free(ino); continue; }
+			while (rdflags == 1 && *c && *c != '-') {
+				char *e; sqfs_u32 inum = strtoull(c, &e, 10); sqfs_u64 ref;
+				if (*e != ':') break;
+				ref = strtoull(e + 1, &e, 10);
+				if (rbtree_lookup(&rd->dcache, &inum) == NULL) rbtree_insert(&rd->dcache, &inum, &ref);
+				c = (*e == ',') ? e + 1 : e;
+			}
+			ino->base.type = U(t[3]);
+			ino->base.inode_number = U(t[7]);
+			if (ino->base.type == SQFS_INODE_DIR) {
+				ino->data.dir.start_block = U(t[4]); ino->data.dir.offset = U(t[5]);
+				ino->data.dir.size = U(t[6]); ino->data.dir.parent_inode = U(t[8]);
+			} else {
+				ino->data.dir_ext.start_block = U(t[4]); ino->data.dir_ext.offset = U(t[5]);
+				ino->data.dir_ext.size = U(t[6]); ino->data.dir_ext.parent_inode = U(t[8]);
+			}
+			r = sqfs_dir_reader_open_dir(rd, ino, &st, U(t[2]));
+			if (r) printf("err %s\n", ename(r));
+			else {
+				printf("ok %" PRIu64 " %zu %zu %u %" PRIu64 " %" PRIu64, (sqfs_u64)st.cursor.block, st.cursor.offset,
+				       st.cursor.size, (unsigned)st.state, (sqfs_u64)st.dir_ref, (sqfs_u64)st.parent_ref);
+				if (st.state == DIR_STATE_OPENED) {
+					sqfs_dir_node_t *e1 = NULL, *e2 = NULL; sqfs_u64 r1, r2;
+					int a = sqfs_dir_reader_read(rd, &st, &e1); r1 = st.ent_ref;
+					int b = sqfs_dir_reader_read(rd, &st, &e2); r2 = st.ent_ref;
+					if (a == 0 && b == 0 && e1->size == strlen((char *)e1->name) - 1 && e2->size == strlen((char *)e2->name) - 1)
+						printf(" %s %" PRIu64 " %s %" PRIu64 " %u", (char *)e1->name, r1, (char *)e2->name, r2, (unsigned)st.state);
+					else printf(" ?");
+					free(e1); free(e2);
+				}
+				printf("\n");
+			}
+			free(ino); sqfs_drop(rd); sqfs_drop(f);
+		} else if (!strcmp(t[0], "dirlist") && nt == 4) {
+			sqfs_file_t *f = imgfile();
+			sqfs_dir_reader_t *rd = sqfs_dir_reader_create(&sb, toy, f, 0);
+			sqfs_inode_generic_t *ino = calloc(1, sizeof(*ino));
+			sqfs_dir_reader_state_t st; int r; unsigned long long n = 0, names = 0, refs = 0;
+			ino->base.type = SQFS_INODE_EXT_DIR; ino->base.inode_number = 1;
+			ino->data.dir_ext.start_block = U(t[1]); ino->data.dir_ext.offset = U(t[2]);
+			ino->data.dir_ext.size = U(t[3]); ino->data.dir_ext.parent_inode = 1;
+			r = sqfs_dir_reader_open_dir(rd, ino, &st, 0);
+			if (r) printf("err %s\n", ename(r));
+			else {
+				for (;;) {
+					sqfs_dir_node_t *e = NULL;
+					if (n > 5000) { printf("n=%llu names=%llu refs=%llu toolong\n", n, names, refs); break; }
+					r = sqfs_dir_reader_read(rd, &st, &e);
+					if (r > 0) { printf("n=%llu names=%llu refs=%llu eof\n", n, names, refs); break; }
+					if (r < 0) { printf("n=%llu names=%llu refs=%llu err %s\n", n, names, refs, ename(r)); break; }
+					++n; names += e->size + 1; refs = (refs + st.ent_ref) & 0xFFFFFFFFULL;
+					free(e);
+				}
+			}
+			free(ino); sqfs_drop(rd); sqfs_drop(f);
+		} else if ((!strcmp(t[0], "cpack") && nt == 4) || (!strcmp(t[0], "cunpack") && nt == 5)) {
+			int un = t[0][1] == 'u';
+			unsigned char *b; long n = hex_decode_tok(t[un ? 4 : 3], &b, 0);
+			sqfs_compressor_config_t cfg; sqfs_compressor_t *cmp = NULL; sqfs_u32 outsize; sqfs_u8 *in, *out; sqfs_s32 r;
+			if (n < 0) { puts("bad-op"); continue; }
+			if (sqfs_compressor_config_init(&cfg, U(t[1]), U(t[2]), un ? SQFS_COMP_FLAG_UNCOMPRESS : 0) ||
+			    sqfs_compressor_create(&cfg, &cmp)) { puts("nocomp"); free(b); continue; }
+			outsize = un ? U(t[3]) : (sqfs_u32)n;
+			in = malloc(n ? n : 1); memcpy(in, b, n);     /* exact sizes: every byte beyond is red zone */
+			if (n == 0) { free(in); in = malloc(0); }
+			out = malloc(outsize);
+			r = cmp->do_block(cmp, in, n, out, outsize);
+			if (r < 0) printf("err %s\n", ename(r));
+			else if (un) printf("ret %d\n", (int)r);
+			else if (r == 0) puts("raw");
+			else { long i; printf("ok "); for (i = 0; i < r; ++i) printf("%02x", out[i]); printf("\n"); }
+			free(in); free(out); sqfs_drop(cmp); free(b);
+		} else if (!strcmp(t[0], "dentry") && nt == 6) {
+			unsigned char *nm; long nn = hex_decode_tok(t[5], &nm, 0);
+			size_t used = U(t[1]), len = U(t[4]), i; char *name;
+			sqfs_id_table_t *tbl; sqfs_inode_generic_t *ino; sqfs_dir_entry_t *ent = NULL; int r;
+			if (nn < 0 || len > (size_t)nn + 1 || used > 65535) { puts("bad-op"); continue; }
+			tbl = sqfs_id_table_create(0);
+			for (i = 0; i < used; ++i) { sqfs_u16 ix; sqfs_id_table_id_to_index(tbl, 1000 + i, &ix); }
+			ino = calloc(1, sizeof(*ino));
+			ino->base.type = SQFS_INODE_FILE; ino->base.mode = S_IFREG | 0644;
+			ino->base.uid_idx = U(t[2]); ino->base.gid_idx = U(t[3]);
+			name = malloc(nn + 1);                  /* exact size: the bytes and one terminator */
+			memcpy(name, nm, nn); name[nn] = 0;
+			r = sqfs_dir_entry_from_inode(name, len, ino, tbl, &ent);
+			if (r) printf("err %s\n", ename(r)); else printf("ok %zu\n", strlen(ent->name));
+			free(ent); free(name); free(ino); sqfs_drop(tbl); free(nm);
 		} else puts("bad-op");
 	}
 	return 0;
